@@ -515,7 +515,7 @@ def lot_vectors_dense_internal(
             row_sum = row_distribution.sum()
 
             if row_sum > 0.0:
-                row_distribution /= row_sum
+                row_distribution = row_distribution / row_sum  # not in place: this is the caller's array
 
                 if row_vectors.shape[0] > reference_vectors.shape[0]:
                     cost = chunked_pairwise_distance(
